@@ -342,3 +342,126 @@ func RespsFromPB(rs []*regattapb.ResponseOp) []Resp {
 	}
 	return out
 }
+
+// ---------------------------------------------------------------- from protobuf (traces of the repository's own tests)
+
+// OpFromPB converts a transaction operation; ok=false for shapes the specification does not model.
+func OpFromPB(o *regattapb.RequestOp) (Op, bool) {
+	switch x := o.Request.(type) {
+	case *regattapb.RequestOp_RequestRange:
+		r := x.RequestRange
+		if r == nil {
+			return Op{}, false
+		}
+		op := Op{T: "range", K: r.Key, Limit: r.Limit, KeysOnly: r.KeysOnly, CountOnly: r.CountOnly}
+		if r.RangeEnd != nil {
+			op.End = End{Has: true, B: r.RangeEnd}
+		}
+		return op, true
+	case *regattapb.RequestOp_RequestPut:
+		if x.RequestPut == nil {
+			return Op{}, false
+		}
+		return Op{T: "put", K: x.RequestPut.Key, V: x.RequestPut.Value, Prev: x.RequestPut.PrevKv}, true
+	case *regattapb.RequestOp_RequestDeleteRange:
+		d := x.RequestDeleteRange
+		if d == nil {
+			return Op{}, false
+		}
+		op := Op{T: "del", K: d.Key, Prev: d.PrevKv, Count: d.Count}
+		if d.RangeEnd != nil {
+			op.End = End{Has: true, B: d.RangeEnd}
+		}
+		return op, true
+	case nil:
+		return Op{T: "none"}, true
+	}
+	return Op{}, false
+}
+
+// CmdFromPB converts a log command into the shape of spec/Table.tla; ok=false for shapes the specification does not model.
+func CmdFromPB(c *regattapb.Command) (Cmd, bool) {
+	switch c.Type {
+	case regattapb.Command_PUT:
+		if c.Kv == nil {
+			return Cmd{}, false
+		}
+		return Cmd{T: "PUT", K: c.Kv.Key, V: c.Kv.Value, Prev: c.PrevKvs}, true
+	case regattapb.Command_DELETE:
+		if c.Kv == nil {
+			return Cmd{}, false
+		}
+		out := Cmd{T: "DEL", K: c.Kv.Key, Prev: c.PrevKvs, Count: c.Count}
+		if c.RangeEnd != nil {
+			out.End = End{Has: true, B: c.RangeEnd}
+		}
+		return out, true
+	case regattapb.Command_PUT_BATCH:
+		out := Cmd{T: "PUTB"}
+		for _, kv := range c.Batch {
+			if kv == nil {
+				return Cmd{}, false
+			}
+			out.KVs = append(out.KVs, KV{K: kv.Key, V: kv.Value})
+		}
+		return out, true
+	case regattapb.Command_DELETE_BATCH:
+		out := Cmd{T: "DELB"}
+		for _, kv := range c.Batch {
+			if kv == nil {
+				return Cmd{}, false
+			}
+			out.Ks = append(out.Ks, kv.Key)
+		}
+		return out, true
+	case regattapb.Command_TXN:
+		if c.Txn == nil {
+			return Cmd{}, false
+		}
+		out := Cmd{T: "TXN"}
+		for _, p := range c.Txn.Compare {
+			if p == nil || p.Target != regattapb.Compare_VALUE {
+				return Cmd{}, false
+			}
+			x := Cmp{K: p.Key, Res: p.Result.String()}
+			if p.RangeEnd != nil {
+				x.End = End{Has: true, B: p.RangeEnd}
+			}
+			if v, ok := p.TargetUnion.(*regattapb.Compare_Value); ok {
+				x.HasVal, x.Val = true, v.Value
+			}
+			out.Cmp = append(out.Cmp, x)
+		}
+		for _, o := range c.Txn.Success {
+			op, ok := OpFromPB(o)
+			if !ok {
+				return Cmd{}, false
+			}
+			out.Succ = append(out.Succ, op)
+		}
+		for _, o := range c.Txn.Failure {
+			op, ok := OpFromPB(o)
+			if !ok {
+				return Cmd{}, false
+			}
+			out.Fail = append(out.Fail, op)
+		}
+		return out, true
+	case regattapb.Command_SEQUENCE:
+		out := Cmd{T: "SEQ"}
+		for _, s := range c.Sequence {
+			x, ok := CmdFromPB(s)
+			if !ok {
+				return Cmd{}, false
+			}
+			if s.LeaderIndex != nil {
+				x.Sli = int(*s.LeaderIndex) + 1
+			}
+			out.Cmds = append(out.Cmds, x)
+		}
+		return out, true
+	case regattapb.Command_DUMMY:
+		return Cmd{T: "DUMMY"}, true
+	}
+	return Cmd{}, false
+}
